@@ -327,6 +327,31 @@ static void chain_table(const char *tag, struct attr_dict *dict, int misplaced)
 	free(ent);
 }
 
+/* the keys whose values are set, cleared and compared through every level
+ * (same order as chain_watched in ml/eng_attr.ml) */
+static const struct { const char *key; kdump_attr_type_t type; } chain_keys[] = {
+	{ "addrxlat.force.phys_base", KDUMP_ADDRESS }, { "addrxlat.force.page_shift", KDUMP_NUMBER },
+	{ "addrxlat.force.virt_bits", KDUMP_NUMBER }, { "addrxlat.force.rootpgt.addr", KDUMP_ADDRESS },
+	{ "addrxlat.default.phys_base", KDUMP_ADDRESS }, { "addrxlat.default.phys_bits", KDUMP_NUMBER },
+	{ "addrxlat.default.rootpgt.as", KDUMP_NUMBER }, { "max_pfn", KDUMP_NUMBER },
+	{ "xen.phys_start", KDUMP_ADDRESS }, { "xen.p2m_mfn", KDUMP_ADDRESS },
+	{ "file.zero_excluded", KDUMP_NUMBER },
+};
+#define NCHAINKEYS ((int) (sizeof chain_keys / sizeof chain_keys[0]))
+
+static void chain_value(kdump_ctx_t *ctx, const char *key, int first)
+{
+	kdump_attr_t a;
+	kdump_status st = kdump_get_attr(ctx, key, &a);
+	if (!first) putchar(',');
+	if (st == KDUMP_ERR_NODATA || st == KDUMP_ERR_NOKEY) putchar('-');
+	else if (st != KDUMP_OK) printf("E%d", (int) st);
+	else if (a.type == KDUMP_NUMBER) printf("%llu", (unsigned long long) a.val.number);
+	else if (a.type == KDUMP_ADDRESS) printf("%llu", (unsigned long long) a.val.address);
+	else if (a.type == KDUMP_STRING) printf("%d", a.val.string[0] == 'v' ? atoi(a.val.string + 1) : -1);
+	else putchar('?');
+}
+
 static void run_chain_case(char **ops, int nops)
 {
 	kdump_ctx_t *ctx[MAXCTX] = { 0 };
@@ -369,10 +394,30 @@ static void run_chain_case(char **ops, int nops)
 			if (!ctx[c]) continue;
 			if (kdump_set_number_attr(ctx[c], "file.set.number", atoi(f[2])) != KDUMP_OK)
 				printf(" E:S");
+		} else if ((!strcmp(f[0], "A") && nf == 4) || (!strcmp(f[0], "U") && nf == 3)) {
+			int ki = atoi(f[2]);
+			kdump_attr_t a;
+			if (!ctx[c] || ki < 0 || ki >= NCHAINKEYS) continue;
+			a.type = f[0][0] == 'U' ? KDUMP_NIL : chain_keys[ki].type;
+			if (a.type == KDUMP_NUMBER) a.val.number = strtoull(f[3], NULL, 10);
+			else if (a.type == KDUMP_ADDRESS) a.val.address = strtoull(f[3], NULL, 10);
+			if (kdump_set_attr(ctx[c], chain_keys[ki].key, &a) != KDUMP_OK)
+				printf(" E:%s%d", f[0], ki);
 		} else if (!strcmp(f[0], "F")) {
 			if (!ctx[c]) continue;
 			kdump_free(ctx[c]);
 			ctx[c] = NULL;
+		}
+	}
+	for (i = 0; i < nctx; ++i) {	/* the values that every level shows */
+		char key[64];
+		if (!ctx[i]) continue;
+		printf(" G%d:", i);
+		for (k = 0; k < NCHAINKEYS; ++k) chain_value(ctx[i], chain_keys[k].key, k == 0);
+		printf(" L%d:", i);
+		for (k = 0; k < 53; ++k) {
+			sprintf(key, "linux.vmcoreinfo.lines.K%d", k);
+			chain_value(ctx[i], key, k == 0);
 		}
 	}
 	{
